@@ -256,6 +256,12 @@ impl H3Client {
         n
     }
 
+    /// RESET_STREAM on the request stream: the client gives up its sending side, the connection lives on
+    pub fn reset_stream(&mut self, id: u64, code: u64) {
+        let _ = self.conn.stream_shutdown(id, quiche::Shutdown::Write, code);
+        flush(&self.socket, &mut self.conn);
+    }
+
     fn poll_events(&mut self) {
         loop {
             match self.h3.poll(&mut self.conn) {
